@@ -124,6 +124,17 @@ func (e *Engine) verifIntrinsic(fn *ssa.Function, args []Value) (Value, bool) {
 		return e.sharedHeap(args[0], args[1]), true
 	case "JSONBytes":
 		return &JSONVal{Node: copyVal(args[0]).(*Agg)}, true
+	case "TempFile":
+		doc, ok := e.docOf(args[0])
+		if !ok || doc == nil {
+			panic(abort{"TempFile on bytes the harness did not build with JSONBytes"})
+		}
+		if e.tempFiles == nil {
+			e.tempFiles = map[string]*Agg{}
+		}
+		path := fmt.Sprintf("/verif-tmp/doc%d.yaml", len(e.tempFiles))
+		e.tempFiles[path] = doc
+		return path, true
 	case "MapKeySetsDiffer":
 		return boolVal(e.mapKeySetsDiffer(args[0], args[1], 0)), true
 	case "SymOrder":
